@@ -33,7 +33,7 @@ def get_symbols(script: str) -> list[str]:
 
     while len(splits):
         token = splits.pop()
-        if token[:2] in ('s"', "s'"):
+        if token[:2].lower() in ('s"', "s'"):
             quote = token[1]
             # match to end of string value
             found = quote in token[3:]
